@@ -13,7 +13,7 @@
    applied behind complete option fields.  [Malformed specs m args d]: after
    complete option fields comes a field with defect d (unknown, ambiguous,
    missing argument, unexpected argument, disabled by the portable mode). *)
-From Yv Require Import Common.Base C20.Model C20.Spec C20.Tables C20.Getopts C20.Proofs.
+From Yv Require Import Common.Base C20.Model C20.Spec C20.Tables C20.Getopts C20.Kill C20.SetBuiltin C20.Typeset C20.Proofs.
 
 (* -- accepts every spelling, and only those ------------------------------------ *)
 
@@ -176,6 +176,87 @@ Theorem getopts_attached_argument : forall raw c a rest,
   gvisible (getopts_run raw ([HYPHEN; c] :: a :: rest)).
 Proof. exact getopts_attached. Qed.
 
+(* every spelling of an abstract invocation (option string + the letters used
+   as unknown options) makes the loop report the expected ($name, $OPTARG)
+   sequence, leave the operands and write to stderr exactly when an unknown
+   letter occurs in verbose mode *)
+Theorem getopts_spelling_gives_expected_events : forall raw unknown os ops args,
+  AllUnknown raw unknown ->
+  Spells (gtable raw unknown) gmode os ops args ->
+  gvisible (getopts_run raw args) =
+  Some (map (expected_event raw unknown) os, ops, starts_with_colon raw || forallb (known_b raw) os).
+Proof. exact getopts_spelling. Qed.
+
+(* rewriting behind complete option fields (known or unknown letters) *)
+Theorem getopts_rules_behind_options : forall raw unknown pre os l r,
+  AllUnknown raw unknown -> OptPrefix (gtable raw unknown) gmode pre os ->
+  gvisible (getopts_run raw l) = gvisible (getopts_run raw r) ->
+  gvisible (getopts_run raw (pre ++ l)) = gvisible (getopts_run raw (pre ++ r)).
+Proof. exact getopts_behind_options. Qed.
+
+(* -- kill's own parser (model of kill/syntax.rs, portable off) ------------------------ *)
+
+(* outside the class of the open finding F42 (a first argument -SIGNAL whose
+   lower-case name starts with l or v) every vector is read as the documented
+   grammar [kref] reads it, and rejected exactly when the grammar has no
+   reading *)
+Theorem kill_reads_documented_grammar : forall t term args,
+  known_lv t args = false -> kcanon (kparse t term args) = kref t term args.
+Proof. exact kparse_kref. Qed.
+
+Theorem kill_equivalent_spellings_same_result : forall t term a b,
+  known_lv t a = false -> known_lv t b = false -> kref t term a = kref t term b ->
+  kcanon (kparse t term a) = kcanon (kparse t term b).
+Proof. exact kill_equivalent_spellings. Qed.
+
+(* F42: the full statement (without the hypothesis) is false of the model *)
+Theorem kill_lv_cluster_refuted :
+  exists t term args c, known_lv t args = true /\ kref t term args = Some c
+                        /\ kcanon (kparse t term args) = None.
+Proof. exact kill_lv_refuted. Qed.
+
+(* `--foo`, `-x`: looks like an option, is neither an option nor a signal:
+   rejected, no command results (so no signal is sent) *)
+Theorem kill_malformed_option_rejected : forall t term c rem rest,
+  is_lv c = false -> N.eqb c CH_s || N.eqb c CH_n = false ->
+  c :: rem <> [HYPHEN] -> parse_signal t (c :: rem) = None ->
+  kparse t term ((HYPHEN :: c :: rem) :: rest) = KErr (KUnknownOption (HYPHEN :: c :: rem)).
+Proof. exact kill_unknown_option_rejected. Qed.
+
+Theorem kill_attached_signal_argument : forall t term c a rest,
+  N.eqb c CH_s || N.eqb c CH_n = true -> a <> [] -> parse_signal t a <> None ->
+  kref t term ([HYPHEN; c] :: a :: rest) = kref t term ((HYPHEN :: c :: a) :: rest).
+Proof. exact kref_attached. Qed.
+
+(* -- set's own parser (model of set/syntax.rs, portable off) -------------------------- *)
+
+(* -o NAME = -oNAME = --NAME (and +o NAME = +oNAME = ++NAME) for a name that
+   denotes an option `set` can modify *)
+Theorem set_named_option_spellings : forall (sht : short_table) (lt : long_table) (negate : bool)
+    (name opt : str) (st : bool) (rest : list str),
+  lookup_long name lt = Some (LOk opt st true) -> name <> [] ->
+  let o : occurrence := (opt, if negate then negb st else st) in
+  sloop sht lt ([sign_char negate; CH_o] :: name :: rest) = sprepend [o] (sloop sht lt rest)
+  /\ sloop sht lt ((sign_char negate :: CH_o :: name) :: rest) = sprepend [o] (sloop sht lt rest)
+  /\ sloop sht lt ((sign_char negate :: sign_char negate :: name) :: rest) = sprepend [o] (sloop sht lt rest).
+Proof. exact set_named_option_forms. Qed.
+
+(* -- typeset's own long-option rule vs the generic parser's --------------------------- *)
+
+Theorem typeset_long_rule_vs_generic : forall specs name,
+  tmatch specs name = common_match specs name
+  \/ (exists j, common_match specs name = TFound j /\ In j (indices (long_is name) specs)
+                /\ tmatch specs name = TAmbiguous).
+Proof. exact typeset_rule_vs_common. Qed.
+
+Theorem typeset_long_rule_prefix_free : forall specs name,
+  prefix_free specs = true -> tmatch specs name = common_match specs name.
+Proof. exact prefix_free_agree. Qed.
+
+Theorem typeset_long_rule_refuted :
+  exists specs name, common_match specs name = TFound 0 /\ tmatch specs name = TAmbiguous.
+Proof. exact typeset_rule_refuted. Qed.
+
 Print Assumptions parse_iff_spells.
 Print Assumptions spellings_agree.
 Print Assumptions spells_functional.
@@ -205,3 +286,14 @@ Print Assumptions getopts_loop_is_structural_reading.
 Print Assumptions getopts_loop_terminates.
 Print Assumptions getopts_grouped_options.
 Print Assumptions getopts_attached_argument.
+Print Assumptions getopts_spelling_gives_expected_events.
+Print Assumptions getopts_rules_behind_options.
+Print Assumptions kill_reads_documented_grammar.
+Print Assumptions kill_equivalent_spellings_same_result.
+Print Assumptions kill_lv_cluster_refuted.
+Print Assumptions kill_malformed_option_rejected.
+Print Assumptions kill_attached_signal_argument.
+Print Assumptions set_named_option_spellings.
+Print Assumptions typeset_long_rule_vs_generic.
+Print Assumptions typeset_long_rule_prefix_free.
+Print Assumptions typeset_long_rule_refuted.
